@@ -128,6 +128,35 @@ theorem out_alignment (c : Captured) (mode : ResMode) (anchor : Anchor) (tol : R
 theorem snapOf_default : snapOf .dflt false = some (0, 0) := rfl
 theorem snapOf_center : snapOf .center false = some (1 / 2, 1 / 2) := rfl
 
+/-- **explicit_anchor_never_source** — the identity fast path is taken **only** for the literal default
+anchor: with any explicitly given anchor (edge, centre, floating, fractions — whatever they normalise to)
+the source object is never returned, the grid is always recomputed. -/
+theorem explicit_anchor_never_source (c : Captured) (mode : ResMode) (shape : ShapeReq) (tight : Bool)
+    (anchor : Anchor) (tol : Rat) (rnd : Rounding) (ha : anchor ≠ .dflt) :
+    computeOutput c mode shape tight anchor tol rnd ≠ .ok .source := by
+  unfold computeOutput
+  split
+  · rename_i h
+    exact absurd h.2.2.2 ha
+  · split
+    · simp
+    · cases fromBbox c.bbox shape _ anchor tight tol <;> simp [Except.map]
+
+/-- **out_alignment_explicit** — an explicitly requested snapping anchor is honoured also in the own-CRS /
+auto-resolution / no-shape corner (where the default anchor would return the source unchanged): whenever
+the call succeeds the result is a recomputed grid whose lower pixel edges are `(k + o)·|pixel|` for the
+requested fractions `o`, even if the source was registered differently. -/
+theorem out_alignment_explicit (c : Captured) (mode : ResMode) (anchor : Anchor) (tol : Rat)
+    (rnd : Rounding) (o : Out) (ox oy : Rat) (ha : anchor ≠ .dflt) (ht : 0 ≤ tol)
+    (hbx : c.bbox.left ≤ c.bbox.right) (hby : c.bbox.bottom ≤ c.bbox.top)
+    (hs : snapOf anchor false = some (ox, oy))
+    (h : computeOutput c mode .none false anchor tol rnd = .ok o) :
+    ∃ g, o = .grid g ∧
+      (∃ k : Int, g.xLo = ((k : Rat) + ox) * rabs g.A.a) ∧ (∃ k : Int, g.yLo = ((k : Rat) + oy) * rabs g.A.e) := by
+  cases o with
+  | source => exact absurd h (explicit_anchor_never_source c mode .none false anchor tol rnd ha)
+  | grid g => exact ⟨g, rfl, out_alignment c mode anchor tol rnd g ox oy ht hbx hby hs h⟩
+
 /-- **out_same_units_resolution** — with `resolution="auto"` and equal CRS units the output pixel
 size is the source resolution (sign included); same for `resolution="same"` whatever the units. -/
 theorem out_same_units_resolution (c : Captured) (mode : ResMode) (tight : Bool) (anchor : Anchor) (tol : Rat)
